@@ -25,7 +25,7 @@ RULE = ("Alphabet of ~34 write operations over 10 Sids taken from the live confi
 ASSUME = ["two entities whose paths differ only by the extension may share one data store or not (the statement excludes that pair): both the "
           "own overlay and the merged overlay are accepted for them", "get_data of a Sid without path may be {} or only its 'sid' entry",
           "tree reset between sequences is done by the harness (rmtree of the configured root)"]
-BUDGET = {"quick": (2, 400, 24, 3, 14), "thorough": (3, 9600, 160, 4, 12)}     # (exhaustive length, random sequences, fresh-process reads, sampled length, 1/k sample)
+BUDGET = {"quick": (2, 320, 24, 3, 30), "thorough": (3, 9600, 160, 4, 12)}     # (exhaustive length, random sequences, fresh-process reads, sampled length, 1/k sample)
 NSHARDS = 16
 
 
@@ -47,8 +47,10 @@ def floors(m, tier):
             "expected SpilException observed": (c.get("refused", 0), 2000),
             "reads compared": (c.get("reads", 0), 50000),
             "fresh-process reads": (c.get("fresh_process_reads", 0), nfresh // 2),
-            "overwrites of a key": (c.get("overwrite", 0), 300),
-            "one dict object passed to a second successful call": (c.get("shared_dict_reused", 0), 200)}
+            "overwrites of a key": (c.get("overwrite", 0), 150),
+            "one dict object passed to a second successful call": (c.get("shared_dict_reused", 0), 100),
+            "writes through a second Writer instance": (c.get("second_writer_calls", 0), 150),
+            "updates without any key": (c.get("empty_updates", 0), 150)}
 
 
 def run(snap, tier, seed, t0, replay):
@@ -177,6 +179,11 @@ def ops_alphabet(al):
             ops.append(("set", r, "sid"))        # an attribute that happens to be called 'sid': the record's own Sid still wins
         if r in ("H1",):
             ops.append(("set", r, "k2"))
+        if r in ("F1", "V"):
+            ops.append(("set_w2", r, "k2"))          # the same write through ANOTHER Writer instance (another tool, another user)
+            ops.append(("set_w2", r, "k1"))
+        if r in ("F1", "T", "N"):
+            ops.append(("update_empty", r, None))    # an update without any key: still fails for what does not exist
         if r in ("F1", "G", "V"):
             ops.append(("update_shared", r, "k3"))   # the client passes ONE dict object to several calls (adding a key each time)
         if r in ("G", "P"):
@@ -247,6 +254,7 @@ def run_sequence(rec, lab, al, ops, hid, fresh=False, config=None):
     m = SeqModel(lab, al, config)
     m.overwrite = False
     writer = WriteToPaths(config)
+    writer2 = WriteToPaths(config)
     getter = GetFromPaths(config)
     finder = FindInPaths(config)
     case = {"ops": [list(o) for o in ops], "config": config, "which": lab.alphabet_which}
@@ -258,6 +266,8 @@ def run_sequence(rec, lab, al, ops, hid, fresh=False, config=None):
         if op == "setpos":
             val = FALSY[step % len(FALSY)]
         data = {key: val} if key else None
+        if op == "update_empty":
+            data = {}
         if op.endswith("_shared"):
             shared[key] = val
             shared_shadow[key] = val
@@ -275,6 +285,12 @@ def run_sequence(rec, lab, al, ops, hid, fresh=False, config=None):
                 got = writer.create(e, shared)
             elif op == "update_shared":
                 got = writer.update(e, shared)
+            elif op == "set_w2":
+                got = writer2.set(e, **data)
+                rec.count("second_writer_calls")
+            elif op == "update_empty":
+                got = writer.update(e, {}) if step % 2 else writer.set(e)
+                rec.count("empty_updates")
             elif op == "setpos":
                 got = writer.set(e, key, val)
             elif op == "set" and key == "sid":
